@@ -59,7 +59,7 @@ class Prop(common.PropertyCheck):
         # explicit W = 0 (a falsy value) on floating-point samples with negative events, every channel form
         for chf in ('name', 'list', 'all'):
             yield {'res': rng.choice([1024, 4096]), 'units': 'raw', 'scale': 'logicle', 'n': rng.choice([None, 17]), 'chform': chf, 'over': 'W0', 'dt': 'F', 'tinyneg': False,
-                   'nan': False, 'seed': rng.randrange(1 << 30)}
+                   'nan': False, 'seed': rng.randrange(1 << 30), 'negev': True}
         # unsupported entries inside a per-channel scale list
         for badsc in (['linear', 'Log'], ['loglog', 'linear'], ['logicle', None], ['cubic', 'cubic'], ['linear', '']):
             yield {'res': 1024, 'units': rng.choice(['raw', 'rfi']), 'scale': 'cubic', 'badlist': badsc, 'n': rng.choice([None, 8]), 'chform': 'list', 'over': None,
@@ -89,6 +89,10 @@ class Prop(common.PropertyCheck):
             d = d.copy()
             d[3, 1] = np.nan
             d[4, 0] = np.nan
+        if case.get('negev') and case.get('dt') == 'F':
+            # clearly negative events in every channel (the data-derived W is then well above 0)
+            d = d.copy()
+            d[1, 0] = -0.01 * res; d[2, 1] = -0.02 * res; d[3, 2] = -12.0
         if case.get('tinyneg') and case.get('dt') == 'F':
             # negative events only slightly below zero (well inside the linear region the default W would give)
             d = FlowCal.transform.transform(d, None, lambda x: np.where(np.asarray(x) < 0, np.asarray(x) * 1e-5, np.asarray(x)))
